@@ -11,6 +11,10 @@ CONSTANTS
   AnchorFlows = {}
   Paths <- PathsMC
   Cat <- CatMC
+  Inert <- NestedFlows
+  Unseen = {}
+  NestedPP = {}
+  NestedFlows = {}
   Txns = {1, 2}
   RestoreWrongDirection = FALSE
   PublishBeforeInit = FALSE
